@@ -32,7 +32,7 @@ class P:
         return v
 
     def variant(self):
-        if self.peek() == "VerifyLayout":
+        if self.peek() in ("VerifyLayout", "Self"):
             self.eat(); self.eat("::")
         v = self.eat()
         if v not in VARIANTS:
@@ -53,6 +53,33 @@ class P:
         if self.peek() == "{":
             self.eat("{"); e = self.expr(); self.eat("}")
             return e
+        if self.peek() == "match" and self.t[self.i + 1:self.i + 7] == ["(", "self", ",", "other", ")", "{"]:
+            # match (self, other) { (P, Q) => e, .. }: a component pattern is a variant alternative, `_`, or the component's own name (a binding
+            # that shadows the parameter with the very same value)
+            self.i += 7
+            arms = []
+            while self.peek() != "}":
+                if self.peek() == "#":
+                    raise TranslateError("attribute on a match arm of VerifyLayout::and")
+                self.eat("(")
+                comps = []
+                for name in ("self", "other"):
+                    if self.peek() == name:
+                        self.eat(); comps.append(None)
+                    else:
+                        comps.append(self.pattern())
+                    if name == "self":
+                        self.eat(",")
+                if self.peek() == ",":
+                    self.eat(",")
+                self.eat(")")
+                self.eat("=>")
+                e = self.expr()
+                if self.peek() == ",":
+                    self.eat(",")
+                arms.append((comps, e))
+            self.eat("}")
+            return ("match2", arms)
         if self.peek() == "match":
             self.eat("match")
             scrut = self.eat()
@@ -81,6 +108,13 @@ def to_coq(e, ind="  "):
         return "a" if e[1] == "self" else "b"
     if e[0] == "lit":
         return e[1]
+    if e[0] == "match2":
+        # Coq checks exhaustiveness (and rejects redundant clauses) itself
+        pat = lambda c: "_" if c is None else ("(%s)" % " | ".join(c) if len(c) > 1 else c[0])
+        out = "match a, b with"
+        for comps, body in e[1]:
+            out += "\n%s| %s, %s => %s" % (ind, pat(comps[0]), pat(comps[1]), to_coq(body, ind + "  "))
+        return "(" + out + "\n%send)" % ind
     _, scrut, arms = e
     out = "match %s with" % ("a" if scrut == "self" else "b")
     covered = set()
@@ -135,6 +169,14 @@ def generate():
     # compare_layouts: which verdicts for (both present & compatible, both present & incompatible, one missing)
     cb = re.sub(r"\s+", "", fns["compare_layouts"]["body"])
     m = re.search(r"^\{iflet\(Some\(expected\),Some\(found\)\)=\(expected,found\)\{matchcheck_layout_compatibility\(expected,found\)\.into_result\(\)\{Ok\(_\)=>VerifyLayout::(\w+),(.*)\}\}else\{VerifyLayout::(\w+)\}\}$", cb)
+    if not m:
+        # the same decision written with an early return
+        m = re.search(r"^\{let\(expected,found\)=match\(expected,found\)\{\(Some\(expected\),Some\(found\)\)=>\(expected,found\),_=>return(?:VerifyLayout|Self)::(\w+),?\};matchcheck_layout_compatibility\(expected,found\)\.into_result\(\)\{Ok\(_\)=>VerifyLayout::(\w+),(.*)\}\}$", cb)
+        if m:
+            class M2:
+                def __init__(self, g): self.g = g
+                def group(self, k): return self.g[k]
+            m = M2({1: m.group(2), 2: m.group(3), 3: m.group(1)})
     if not m:
         raise TranslateError("compare_layouts has another shape than `if let (Some, Some) { match check(..) { Ok => .., Err => .. } } else { .. }`: " + cb[:200])
     errs = set(re.findall(r"=>(?:\{[^}]*;)?VerifyLayout::(\w+)", m.group(2)))
